@@ -399,3 +399,4 @@ def run(ctx):
 def replay(ctx, payload):
     ctx.extra["rule"] = RULE
     eval_cases(ctx, [payload["case"]])
+THEOREMS += ['gen_eth_coords', 'gen_std_dims']   # translator tie, second round (Props/C19Gen.lean)
